@@ -355,6 +355,9 @@ def defer():
                         fired[i] = occurrence
 
                         t.set('event', 'Periodic timer')
+                        # a timer carries no run ID: never run under the one
+                        # left behind by an earlier event (see organize())
+                        t.set('runid', None)
 
                         if _is_asp(t):
                             t.get('todo').add('__all__')
